@@ -322,8 +322,8 @@ impl Property for C31 {
         "the address part 'parses' when std::net::IpAddr::from_str accepts it; the mask is a decimal integer in Rust's integer grammar (digits, optional leading '+', leading zeros allowed), no whitespace",
         "for an IPv4-mapped subnet string the mask counts bits of the 128-bit form: 96..=128 fits, it means mask-96 IPv4 bits",
     ];
-    const QUICK_CASES: u32 = 400_000;
-    const THOROUGH_CASES: u32 = 16_000_000;
+    const QUICK_CASES: u32 = 2_000_000;
+    const THOROUGH_CASES: u32 = 30_000_000;
 
     fn strategy(_tier: Tier) -> BoxedStrategy<Case> {
         case_strategy()
